@@ -459,8 +459,9 @@ pub fn check_fetch(ctx: &mut Ctx, f: &Fam, ob: &Observed) {
         simkit::count("hash-collision-exempt");
         return;
     }
-    // expected multiset of archive bytes: header region once, stored range of each fetched chunk once
-    let mut want: Vec<(u64, u64)> = vec![(0, f.ra.header_len as u64)];
+    // expected multiset of archive bytes behind the header: the stored range of each fetched chunk,
+    // once. How (and how often) the header region is read is not the property's business.
+    let mut want: Vec<(u64, u64)> = Vec::new();
     for &i in &ex.fetch {
         let d = &f.ra.dict.descriptors[i];
         if d.archive_size > 0 {
@@ -479,7 +480,9 @@ pub fn check_fetch(ctx: &mut Ctx, f: &Fam, ob: &Observed) {
         m.retain(|_, v| *v != 0);
         m
     };
-    let (w, g) = (cover(&want), cover(&ob.archive_reads));
+    let cdo = f.ra.chunk_data_offset;
+    let got_data: Vec<(u64, u64)> = ob.archive_reads.iter().filter(|&&(o, l)| o + l > cdo).map(|&(o, l)| if o >= cdo { (o, l) } else { (cdo, o + l - cdo) }).collect();
+    let (w, g) = (cover(&want), cover(&got_data));
     if w != g {
         // describe the first difference
         let mut keys: BTreeSet<u64> = w.keys().copied().collect();
